@@ -72,10 +72,6 @@ pub open spec fn cgn_added(o: Seq<Factor>, f: Seq<Factor>, cs: Seq<Energy>) -> b
         &&& fkey(f[n + 4], Carrier::ELECTRICIDAD, Source::COGEN, Dest::A_RED, Step::B) && r3v(fvals(f[n + 4])) == grid
     }
 }
-pub open spec fn set_iter_ok(s: Set<Carrier>, rem: Seq<&Carrier>) -> bool {
-    &&& rem.no_duplicates()
-    &&& (forall|c: Carrier| s.contains(c) ==> exists|j: int| 0 <= j < rem.len() && *(#[trigger] rem[j]) == c)
-}
 /// C04: the whole-building balance is the sum, by the accumulation contract, of the per-carrier balances, each exactly once
 pub open spec fn ep_totals_ok(bcr: Map<Carrier, BalanceCarrier>, c: Components, b: Balance) -> bool {
     exists|ord: Seq<Carrier>, hist: Seq<Balance>| #[trigger] bal_chain(bcr, ord, hist) && bal_initial(hist[0], c) && hist.last() == b
